@@ -2,7 +2,7 @@
    Proved here: the node-level laws of the join on structured treespecs; "least upper bound" and the
    Python-level replication laws are decided by the correspondence/oracle run (DESIGN §7 C09). *)
 From OptreeModel Require Import Base Tree Flatten Unflatten Spec Ops.
-From OptreeProofs Require Import SpecProofs OrderProofs.
+From OptreeProofs Require Import SpecProofs OrderProofs PrefixOrder JoinOrder FlattenGood.
 
 (* a leaf is replaced by the other operand's subtree, whichever side it is on *)
 Theorem C09_join_leaf_l : forall b, st_join st_leaf b = Ok b.
@@ -37,6 +37,39 @@ Theorem C09_broadcast_namespace :
                 ss_nil j = ss_nil a /\ ss_ns j = ns_merge (ss_ns a) (ss_ns b).
 Proof. exact broadcast_namespace. Qed.
 Print Assumptions C09_broadcast_namespace.
+
+(* The result of broadcast_to_common_suffix is an UPPER BOUND of both operands in the prefix order:
+   each operand is a prefix of it. Side condition `good`: dict nodes carry as many distinct keys as
+   children, arities match, only custom nodes carry a registration, None nodes are childless —
+   C09_flatten_gives_good_treespecs shows it for every treespec flatten produces. *)
+Theorem C09_join_is_upper_bound :
+  forall a b j, good a = true -> good b = true -> st_join a b = Ok j ->
+  fst (st_prefix a j) = true /\ fst (st_prefix b j) = true.
+Proof. exact join_upper_bound. Qed.
+Print Assumptions C09_join_is_upper_bound.
+
+Theorem C09_flatten_gives_good_treespecs :
+  forall c o ls sp, wf_obj o = true -> flatten c o = Ok (ls, sp) ->
+  exists s, sspec_of sp = Some s /\ good (stree_of s) = true.
+Proof. exact flatten_good. Qed.
+Print Assumptions C09_flatten_gives_good_treespecs.
+
+(* hence for two flattened trees: whenever their treespecs broadcast, both are prefixes of the result *)
+Corollary C09_broadcast_of_flattened_is_upper_bound :
+  forall c1 o1 ls1 sp1 c2 o2 ls2 sp2 s1 s2 j,
+    wf_obj o1 = true -> wf_obj o2 = true ->
+    flatten c1 o1 = Ok (ls1, sp1) -> flatten c2 o2 = Ok (ls2, sp2) ->
+    sspec_of sp1 = Some s1 -> sspec_of sp2 = Some s2 ->
+    st_join (stree_of s1) (stree_of s2) = Ok j ->
+    fst (st_prefix (stree_of s1) j) = true /\ fst (st_prefix (stree_of s2) j) = true.
+Proof.
+  intros c1 o1 ls1 sp1 c2 o2 ls2 sp2 s1 s2 j W1 W2 F1 F2 S1 S2 Hj.
+  destruct (flatten_good c1 o1 ls1 sp1 W1 F1) as (t1 & E1 & G1).
+  destruct (flatten_good c2 o2 ls2 sp2 W2 F2) as (t2 & E2 & G2).
+  rewrite S1 in E1. injection E1 as <-. rewrite S2 in E2. injection E2 as <-.
+  exact (join_upper_bound (stree_of s1) (stree_of s2) j G1 G2 Hj).
+Qed.
+Print Assumptions C09_broadcast_of_flattened_is_upper_bound.
 
 Example C09_example :
   let c := {| c_nil := false; c_ns := 1; c_pred := None;
